@@ -69,10 +69,45 @@ def semi_tie(res):
         payloads.append(dict(kind="obligation", obligation=dict(correspondence="semicolon-rule tie", log=(r.stderr + j.stderr)[-800:] or "no records")))
     return tot, payloads
 
+def l0_tie(res):
+    """C01 C02 C06 C10: the L0 whole-formatter model (Fmt0.format0, extracted) against the binary, byte for byte, on programs of
+    the fragment in arbitrary layout under four whitespace configurations each.  Returns (totals, payloads)."""
+    n = 1500 if res.tier == "quick" else 40000
+    lines, errs = run_pipeline_sharded(lambda i, k: ([SVH, "l0", "--seed", str(res.seed), "--n", str(n), "--shard", "%d/%d" % (i, k)], [driver("drv_l0")]))
+    tot, stats, payloads = {}, {}, []
+    for l in lines:
+        if l.startswith("SUMMARY"):
+            for k, v in parse_kv(l).items(): tot[k] = tot.get(k, 0) + int(v)
+        elif l.startswith("STATS"):
+            for k, v in parse_kv(l).items(): stats[k] = stats.get(k, 0) + int(v)
+        elif l.startswith("BAD") and len(payloads) < 3:
+            w = l.split()
+            payloads.append(dict(kind="input", check="L0:" + w[1], case=w[2], family="l0", seed=res.seed, n=n, region="L0 tie (programs of the fragment, 4 whitespace configurations)",
+                                 expected="Fmt0.format0 (extracted) = the library's output, byte for byte"))
+    if errs or not tot.get("records") or tot.get("records") != stats.get("records"):
+        payloads.append(dict(kind="obligation", obligation=dict(correspondence="L0 tie", log="; ".join(errs) or "record count mismatch")))
+    return tot, payloads
+
+def c06_witness(res):
+    """the witness of C06_L0_normalisation_not_idempotent_refuted, replayed on the library (a known finding while it reproduces)"""
+    hexs = lambda b: "#" + b.hex()
+    src = "local x = (- -f())\n"
+    feed = "w1 - %s\n" % hexs(src.encode())
+    out = sh([SVH, "fmt"], inp=feed, timeout=120).stdout.split()
+    if len(out) > 2 and out[1] == "ok":
+        first = bytes.fromhex(out[2][1:])
+        out2 = sh([SVH, "fmt"], inp="w2 - %s\n" % hexs(first), timeout=120).stdout.split()
+        if len(out2) > 2 and out2[1] == "ok" and bytes.fromhex(out2[2][1:]) != first:
+            for e in known_findings("C06"):
+                if e.get("id") == "F-C06-kept-parens-around-guarded-minus": res.known.append(e["what"]); return True
+            return False
+    return True
+
 def run_prop(res, prop, extra_obligations=1):
     sp = SPEC[prop]
     semi = prop in ("C01", "C02")
     kernels = {"C01": ["semicolon_rule"], "C02": ["semicolon_rule"], "C10": ["whitespace_and_call_options"], "C11": ["quote_choice", "whitespace_and_call_options"]}.get(prop, [])
+    if prop in ("C01", "C02", "C06", "C10"): extra_obligations += 1     # the L0 tie
     t_ok, t_log = True, ""
     for kname in kernels:               # Tie 1: each kernel the theorems speak about is regenerated from /repo's source
         extra_obligations += 1
@@ -90,6 +125,13 @@ def run_prop(res, prop, extra_obligations=1):
         res.coverage["evaluations"] = res.coverage.get("evaluations", 0) + tot.get("records", 0)
         res.coverage["input_distribution"]["semicolon_rule_tie"] = tot
         res.coverage["kernels_translated"] = ["src/formatters/block.rs :: var_has_parentheses, check_stmt_requires_semicolon -> coq/gen/SemiRule.v (rs2v)"]
+    if prop in ("C01", "C02", "C06", "C10"):
+        l0, more = l0_tie(res)
+        payloads = more + payloads; ok = ok and not more
+        res.coverage["evaluations"] = res.coverage.get("evaluations", 0) + l0.get("records", 0)
+        res.coverage["input_distribution"]["L0_tie"] = l0
+    if prop == "C06" and not c06_witness(res):
+        payloads.append(dict(kind="input", check="second-pass-differs", family="witness", source="local x = (- -f())\n", expected="a second pass changes nothing (or the finding is listed)")); ok = False
     if prop == "C01":
         n_expr, more = expr_family(res)
         payloads = more + payloads; ok = ok and not more
@@ -111,6 +153,11 @@ def run_prop(res, prop, extra_obligations=1):
 def replay(payload, prop):
     build_harness(); build_ml()
     sp = SPEC[prop]
+    if payload.get("family") == "l0":
+        k = int(payload["case"][1:])
+        lines, errs = run_pipeline_sharded(lambda i, n: ([SVH, "l0", "--seed", str(payload["seed"]), "--n", str(k + 1), "--shard", "%d/%d" % (k % 1000003, 1000003)], [driver("drv_l0")]), shards=1)
+        print("\n".join(l[:600] for l in lines))
+        return 1 if errs or any(l.startswith("BAD") for l in lines) else 0
     if payload.get("family") == "semi":
         r = sh([SVH, "semi"], check=False)
         j = subprocess.run([driver("drv_semi")], input=r.stdout, stdout=subprocess.PIPE, text=True)
